@@ -7,9 +7,10 @@ package registry
 // ---- C09: the registries hand the model's endpoint list, unchanged, to the routing strategy
 //@ func (r *RoutingRegistry) GetRoutableEndpointsForModel
 //@   property C09
-//@   requires r != nil && allNonNil(healthyEndpoints)
+//@   refines domain.ModelRegistry.GetRoutableEndpointsForModel
+//@   requires allNonNil(healthyEndpoints)
 //@   modifies gvar lastModelEndpoints, gvar lastModelErr, domain.Endpoint.Status, domain.Endpoint.Name, domain.Endpoint.URLString, domain.Endpoint.Priority, domain.Endpoint.Type, domain.Endpoint.NextCheckTime, domain.Endpoint.LastChecked, domain.Endpoint.ConsecutiveFailures, domain.Endpoint.BackoffMultiplier, domain.Endpoint.LastLatency
-//@   ensures res1 != nil
+//@   ensures res1 != nil && allNonNil(res0)
 //@   ensures res1.Action == "routed" && lastModelErr == nil ==> forall k int :: 0 <= k && k < len(res0) ==> member(res0[k], healthyEndpoints) && listedURL(old(res0[k].URLString), lastModelEndpoints)
 //@   ensures res1.Action == "routed" && lastModelErr != nil ==> len(res0) == 0
 //@   ensures res1.Action == "rejected" ==> len(res0) == 0 && (res1.StatusCode == 404 || res1.StatusCode == 503)
